@@ -53,3 +53,73 @@ def gen_pep440(repo, out):
 
 
 EXTRA_GENERATORS.append(gen_pep440)
+
+
+# ---------------------------------------------------------------- rewrite: open() arguments and generator consumption
+def open_calls(fn):
+    out = []
+    for n in ast.walk(fn):
+        if isinstance(n, ast.Call) and isinstance(n.func, ast.Attribute) and n.func.attr == "open":
+            kw = {}
+            for k in n.keywords:
+                if k.arg is None or not isinstance(k.value, ast.Constant):
+                    die("open() call with non-constant keyword at line %d" % n.lineno)
+                kw[k.arg] = k.value.value
+            extra = set(kw) - {"mode", "newline", "encoding"}
+            if extra:
+                die("open() call with unexpected keywords %s at line %d" % (sorted(extra), n.lineno))
+            # positional mode (second positional of io.open / first of Path.open) is not used by bumpver
+            npos = len(n.args)
+            is_io = isinstance(n.func.value, ast.Name) and n.func.value.id == "io"
+            if npos > (1 if is_io else 0):
+                die("open() call with positional mode at line %d" % n.lineno)
+            out.append(kw)
+    return out
+
+
+def ostr(v):
+    return "None" if v is None else "(Some %s)" % q(v)
+
+
+def gen_rewrite(repo, out):
+    out.write("(* open() keyword arguments in v1rewrite/v2rewrite: (where, mode, newline, encoding); None = keyword absent *)\n")
+    rows = []
+    eager = []
+    for modname in ("v2rewrite.py", "v1rewrite.py"):
+        mod = parse_file(repo, modname)
+        for fname in ("iter_rewritten", "diff", "rewrite_files"):
+            fn = top_func(mod, fname)
+            calls = open_calls(fn)
+            if len(calls) != 1:
+                die("%s.%s: expected exactly one open() call, found %d" % (modname, fname, len(calls)))
+            kw = calls[0]
+            for key in ("mode", "newline", "encoding"):
+                if key in kw and not isinstance(kw[key], str):
+                    die("%s.%s: open(%s=...) is not a string" % (modname, fname, key))
+            rows.append("  (%s, %s, %s, %s) (* %s.%s: %r *)" % (q(modname[:-3] + "." + fname), ostr(kw.get("mode")), ostr(kw.get("newline")),
+                                                             ostr(kw.get("encoding")), modname, fname, kw))
+        # rewrite_files: for file_data in list(iter_rewritten(...)) | iter_rewritten(...)
+        fn = top_func(mod, "rewrite_files")
+        loops = [n for n in fn.body if isinstance(n, ast.For)]
+        if len(loops) != 1:
+            die("%s.rewrite_files: expected exactly one for loop" % modname)
+        it = loops[0].iter
+        def is_iter_call(x):
+            return isinstance(x, ast.Call) and isinstance(x.func, ast.Name) and x.func.id == "iter_rewritten"
+        if is_iter_call(it):
+            eager.append((modname, False))
+        elif isinstance(it, ast.Call) and isinstance(it.func, ast.Name) and it.func.id in ("list", "tuple") and len(it.args) == 1 and is_iter_call(it.args[0]):
+            eager.append((modname, True))
+        else:
+            die("%s.rewrite_files: unrecognised loop iterable %s" % (modname, ast.unparse(it)))
+        # everything before the write loop must not write; the loop body must be: join, open(...), write
+        body_calls = [n.func.attr for n in ast.walk(loops[0]) if isinstance(n, ast.Call) and isinstance(n.func, ast.Attribute)]
+        if sorted(body_calls) != ["join", "open", "write"]:
+            die("%s.rewrite_files: unexpected calls in the write loop: %s" % (modname, sorted(body_calls)))
+    out.write("Definition OPEN_CALLS : list (list N * option (list N) * option (list N) * option (list N)) := [\n" + ";\n".join(rows) + "\n].\n\n")
+    for modname, e in eager:
+        out.write("(* %s.rewrite_files iterates over %s *)\nDefinition REWRITE_FILES_EAGER_%s : bool := %s.\n\n"
+                  % (modname, "list(iter_rewritten(...))" if e else "the lazy generator iter_rewritten(...)", modname[:2].upper(), "true" if e else "false"))
+
+
+EXTRA_GENERATORS.append(gen_rewrite)
